@@ -9,7 +9,8 @@ Equivalence under permutation for arbitrary programs is behavioural and NOT clai
                           matter for lookup
   R-C04-memo-discipline   every write to the per-scope memos (variable results, rule statuses) stores, under the key that was
                           asked for, exactly the value that is returned, after its computation completed; accumulating writes
-                          (non-idempotent) are findings
+                          (non-idempotent) are findings; an accumulating write's membership test compares the elements' paths
+                          besides their values (it is neither repeated nor merged with a different element)
 """
 import os
 from engine import ai, cg, mirlib as M
@@ -178,6 +179,8 @@ def idempotent_accumulate(ctx, cr, k):
     f = cr.fns[k]
     pushes = []
     preds = set()
+    loop_types = set()
+    early = []
 
     class H(ai.Hooks):
         def call(self, a, st, term, callee, args):
@@ -202,12 +205,44 @@ def idempotent_accumulate(ctx, cr, k):
                     preds.add(clo[1])
                 sid = "SEEN" if (over_slot and pred) else a.site(st, ":any")
                 return [(("sym", sid), mon)]
+            if decl == "std::iter::IntoIterator::into_iter" and len(args) == 1 and "SLOT" in ai.fmt_val(a.resolve(st, args[0])):
+                return [(a.resolve(st, args[0]), mon)]      # `for each in slot.iter()`: an iterator is its own IntoIterator
+            # the same test written as a loop with an early return: `for each in slot.iter() { if each == new { return } } slot.push(new)`
+            if decl == "std::iter::Iterator::next" and term.get("to") is not None and st.top is st.frames[0]:
+                it = a.resolve(st, args[0])
+                if it[0] == "ref":
+                    it = a.resolve(st, a.read_at(st, it[1], it[2]))
+                if "SLOT" in ai.fmt_val(it):
+                    if mon.get("elem"):
+                        return [(("enum", ai.OPTION, 0, ()), mon.set(done=True))]
+                    return [(("enum", ai.OPTION, 1, (("ref", ("X", "ELEM"), ()),)), mon.set(elem=True)), (("enum", ai.OPTION, 0, ()), mon.set(done=True))]
+            if decl == "std::cmp::PartialEq::eq" and st.top is st.frames[0] and mon.get("elem") and len(args) == 2:
+                def mentions(v, n=0):
+                    v = a.resolve(st, v)
+                    if "ELEM" in ai.fmt_val(v):
+                        return True
+                    if v[0] == "ref" and n < 4:
+                        try:
+                            return mentions(a.read_at(st, v[1], v[2]), n + 1)
+                        except Exception:
+                            return False
+                    return False
+                if not mon.get("done"):     # every comparison made while an element of the slot is being looked at is part of the test
+                    ga = callee.get("ga", [])
+                    ty = M.Ty(cr, ga[0]).strip_refs() if ga else None
+                    loop_types.add(str((ty.adt_path() or ty.kind) if ty is not None else "?"))
+                    return [(("bool", True), mon.set(eqs=mon.get("eqs", ()) + (True,))), (("bool", False), mon.set(eqs=mon.get("eqs", ()) + (False,)))]
             if p == "std::vec::Vec::push":
                 tgt = ai.fmt_val(a.resolve(st, args[0]))
                 if "SLOT" in tgt:
-                    pushes.append((st.cons.get("SEEN"), st.trace))
+                    pushes.append((st.cons.get("SEEN"), st.trace, mon.get("elem"), mon.get("eqs", ()), mon.get("done")))
                 return [(("tuple", ()), mon)]
             return None
+
+        def ret(self, a, st, v):
+            mon = st.mon or Mon()
+            if mon.get("elem") and mon.get("eqs") and all(mon.get("eqs")):
+                early.append(mon.get("eqs"))
     a = ai.AI(cr, H())
     a.pinned = ("SEEN",)
     try:
@@ -217,9 +252,18 @@ def idempotent_accumulate(ctx, cr, k):
     ctx.states += a.n_states
     if not pushes:
         return "no push into the memo slot found in %s (anchor lost)" % k
-    for seen, tr in pushes:
+    loop_form = bool(early) and not preds
+    for seen, tr, elem, eqs, done in pushes:
+        if loop_form:
+            # pushed only after the scan of the slot ended, and never past an element that compared equal in every respect
+            if not done or (elem and eqs and all(eqs)):
+                return "pushes into the memo slot %s [%s]: a repeated clause accumulates duplicates" % (
+                    "before the scan of the slot has ended" if not done else "although an element of the slot compared equal", S.trace_str(tr, 5))
+            continue
         if seen != ("bool", False):
             return "pushes into the memo slot on a path where no membership test excluded an equal element (seen=%s) [%s]: a repeated clause accumulates duplicates" % (seen, S.trace_str(tr, 5))
+    if loop_form and not any(str(c).endswith("path_value::Path") or str(c) in ("std::string::String", "str") for c in loop_types):
+        return "the membership test compares %s but not the elements' paths: keys at different paths with equal values are merged into one capture" % sorted(loop_types)
     # ... and the test must not be coarser than identity either: two captured keys are the same element only if they sit at the same path.
     # The predicate has to compare the elements' paths (whole Path values, or their text) besides their values; comparing a component
     # such as the location alone merges different keys whenever locations coincide (documents built from serde values are all at 0:0).
